@@ -215,7 +215,8 @@ class IntervalProd(Set):
         elif not isinstance(other, IntervalProd):
             return False
 
-        return (np.allclose(self.min_pt, other.min_pt, atol=atol, rtol=0.0) and
+        return (self.ndim == other.ndim and
+                np.allclose(self.min_pt, other.min_pt, atol=atol, rtol=0.0) and
                 np.allclose(self.max_pt, other.max_pt, atol=atol, rtol=0.0))
 
     def __eq__(self, other):
